@@ -59,12 +59,36 @@ structure Represents {ν} (nav : Nav ν) (tbl : Table) (D : Int → Prop) : Prop
     nav.logb d = LogP.fin (beta tbl k)
   logb_none : ∀ k, (∀ t ∈ k, D t) → k ≠ [] → reach nav k.reverse = none → beta tbl k = 0
 
+/-- `Represents` restricted to what a model of order `N` ever looks at: log-probabilities of
+keys of length `≤ N`, back-off weights of keys of length `< N` (the n-path of the descent
+reaches depth `N`, the b-path only depth `N-1`; the flat buffers store no back-off weight
+for the nodes of the highest order – `logbs` is shorter than `logps` – so the unrestricted
+`Represents` cannot hold for them). -/
+structure RepresentsN {ν} (nav : Nav ν) (tbl : Table) (D : Int → Prop) (N : Nat) : Prop where
+  logp_some : ∀ k d, (∀ t ∈ k, D t) → k.length ≤ N → reach nav k.reverse = some d →
+    nav.logp d = LogP.ofOption (finiteP tbl k)
+  logp_none : ∀ k, (∀ t ∈ k, D t) → k.length ≤ N → k ≠ [] → reach nav k.reverse = none →
+    finiteP tbl k = none
+  logb_some : ∀ k d, (∀ t ∈ k, D t) → k.length + 1 ≤ N → reach nav k.reverse = some d →
+    nav.logb d = LogP.fin (beta tbl k)
+  logb_none : ∀ k, (∀ t ∈ k, D t) → k.length + 1 ≤ N → k ≠ [] → reach nav k.reverse = none →
+    beta tbl k = 0
+
+theorem Represents.toN {ν} {nav : Nav ν} {tbl : Table} {D : Int → Prop} (H : Represents nav tbl D)
+    (N : Nat) : RepresentsN nav tbl D N where
+  logp_some := fun k d hk _ h => H.logp_some k d hk h
+  logp_none := fun k hk _ hne h => H.logp_none k hk hne h
+  logb_some := fun k d hk _ h => H.logb_some k d hk h
+  logb_none := fun k hk _ hne h => H.logb_none k hk hne h
+
 section loop
-variable {ν : Type} (nav : Nav ν) (tbl : Table) (D : Int → Prop) (H : Represents nav tbl D)
+variable {ν : Type} (nav : Nav ν) (tbl : Table) (D : Int → Prop) (N : Nat)
+  (H : RepresentsN nav tbl D N)
 include H
 
 /-- log-probability seen on the n-path after a step, and whether it clobbers. -/
-theorem npath_logp (w : Int) (pre : List Int) (hw : D w) (hpre : ∀ t ∈ pre, D t) :
+theorem npath_logp (w : Int) (pre : List Int) (hw : D w) (hpre : ∀ t ∈ pre, D t)
+    (hlen : pre.length + 1 ≤ N) :
     let s := walkSt nav w pre
     ((nav.logp s.1).isFinite && s.2) = (finiteP tbl (pre.reverse ++ [w])).isSome ∧
     (s.2 = true → nav.logp s.1 = LogP.ofOption (finiteP tbl (pre.reverse ++ [w]))) := by
@@ -76,21 +100,23 @@ theorem npath_logp (w : Int) (pre : List Int) (hw : D w) (hpre : ∀ t ∈ pre, 
     · exact hpre t ht
     · exact ht ▸ hw
   have hrev : (pre.reverse ++ [w]).reverse = w :: pre := by simp
+  have hkl : (pre.reverse ++ [w]).length ≤ N := by simp; omega
   by_cases hs : s.2 = true
   · have hr : reach nav (pre.reverse ++ [w]).reverse = some s.1 := by
       rw [hrev]; simp only [reach]; simp [s] at hs; simp [hs, s]
-    have := H.logp_some _ _ hk hr
+    have := H.logp_some _ _ hk hkl hr
     refine ⟨?_, fun _ => this⟩
     rw [this, hs, Bool.and_true, LogP.isFinite_ofOption]
   · have hs' : s.2 = false := by simpa using hs
     have hr : reach nav (pre.reverse ++ [w]).reverse = none := by
       rw [hrev]; simp only [reach]; simp [s] at hs'; simp [hs']
-    have := H.logp_none _ hk (by simp) hr
+    have := H.logp_none _ hk hkl (by simp) hr
     refine ⟨?_, fun h => absurd h hs⟩
     rw [hs', Bool.and_false, this]; rfl
 
 /-- back-off weight seen on the b-path. -/
-theorem bpath_logb (t0 : Int) (pre : List Int) (h0 : D t0) (hpre : ∀ t ∈ pre, D t) :
+theorem bpath_logb (t0 : Int) (pre : List Int) (h0 : D t0) (hpre : ∀ t ∈ pre, D t)
+    (hlen : pre.length + 2 ≤ N) :
     let s := walkSt nav t0 pre
     (if s.2 then nav.logb s.1 else LogP.fin 0) = LogP.fin (beta tbl (t0 :: pre).reverse) := by
   intro s
@@ -100,15 +126,16 @@ theorem bpath_logb (t0 : Int) (pre : List Int) (h0 : D t0) (hpre : ∀ t ∈ pre
     rcases ht with ht | ht
     · exact hpre t ht
     · exact ht ▸ h0
+  have hkl : ((t0 :: pre).reverse).length + 1 ≤ N := by simp; omega
   by_cases hs : s.2 = true
   · have hr : reach nav ((t0 :: pre).reverse).reverse = some s.1 := by
       rw [List.reverse_reverse]; simp only [reach]; simp [s] at hs; simp [hs, s]
     rw [if_pos hs]
-    exact H.logb_some _ _ hk hr
+    exact H.logb_some _ _ hk hkl hr
   · have hs' : s.2 = false := by simpa using hs
     have hr : reach nav ((t0 :: pre).reverse).reverse = none := by
       rw [List.reverse_reverse]; simp only [reach]; simp [s] at hs'; simp [hs']
-    rw [if_neg hs, H.logb_none _ hk (by simp) hr]
+    rw [if_neg hs, H.logb_none _ hk hkl (by simp) hr]
 
 end loop
 
@@ -134,11 +161,13 @@ def ValInv (tbl : Table) (w : Int) (pre : List Int) (t : Int) (last back : LogP)
     o.map (· + q) = (bo tbl w pre.reverse).map (· + beta tbl (t :: pre.reverse))
 
 section loop2
-variable {ν : Type} (nav : Nav ν) (tbl : Table) (D : Int → Prop) (H : Represents nav tbl D)
+variable {ν : Type} (nav : Nav ν) (tbl : Table) (D : Int → Prop) (N : Nat)
+  (H : RepresentsN nav tbl D N)
 include H
 
 theorem loop_spec (w : Int) (hw : D w) :
     ∀ (l pre : List Int) (st : PathState ν), (∀ t ∈ pre, D t) → (∀ t ∈ l, D t) →
+      (pre ++ l).length + 1 ≤ N →
       (st.dN, st.fN) = walkK nav (w :: pre) →
       (∀ t rest, l = t :: rest → (st.dB, st.fB) = walkK nav (pre ++ [t]) ∧
         ValInv tbl w pre t st.last st.back) →
@@ -146,9 +175,11 @@ theorem loop_spec (w : Int) (hw : D w) :
       descendLoop nav l st = LogP.ofOption (bo tbl w (pre ++ l).reverse) := by
   intro l
   induction l with
-  | nil => intro _ _ _ _ _ _ h; exact absurd rfl h
+  | nil => intro _ _ _ _ _ _ _ h; exact absurd rfl h
   | cons t tl ih =>
-    intro pre st hpre hl hN hB _
+    intro pre st hpre hl hlenN hN hB _
+    have hlenN' : pre.length + tl.length + 2 ≤ N := by
+      simp only [List.length_append, List.length_cons] at hlenN; omega
     obtain ⟨hBp, o, q, hlast, hback, hval⟩ := hB t tl rfl
     have hpre' : ∀ x ∈ pre ++ [t], D x := by
       intro x hx
@@ -161,7 +192,7 @@ theorem loop_spec (w : Int) (hw : D w) :
       have := walkK_snoc nav (w :: pre) t (by simp)
       rw [← hN] at this
       simpa using this.symm
-    have hnp := npath_logp nav tbl D H w (pre ++ [t]) hw hpre'
+    have hnp := npath_logp nav tbl D N H w (pre ++ [t]) hw hpre' (by simp; omega)
     simp only [List.reverse_append, List.reverse_cons, List.reverse_nil, List.nil_append,
       List.singleton_append] at hnp
     have hbo_some : ∀ p, finiteP tbl (t :: pre.reverse ++ [w]) = some p →
@@ -198,8 +229,6 @@ theorem loop_spec (w : Int) (hw : D w) :
         have := walkK_snoc nav (pre ++ [t]) t' (by simp)
         rw [← hBp] at this
         simpa using this.symm
-      have hcur := fun (t0 : Int) (bp : List Int) (e : pre ++ [t] ++ [t'] = t0 :: bp) =>
-        bpath_logb nav tbl D H t0 bp
       -- the b-path key is non-empty
       obtain ⟨t0, bp, hkey⟩ : ∃ t0 bp, pre ++ [t] ++ [t'] = t0 :: bp := by
         cases pre <;> simp
@@ -211,7 +240,11 @@ theorem loop_spec (w : Int) (hw : D w) :
         · exact hpre x hx
         · exact hx ▸ hl t (by simp)
         · exact hx ▸ hl t' (by simp)
-      have hc := bpath_logb nav tbl D H t0 bp (hD0 t0 (by simp)) (fun x hx => hD0 x (by simp [hx]))
+      have hbpl : bp.length + 2 ≤ N := by
+        have := congrArg List.length hkey
+        simp only [List.length_append, List.length_cons, List.length_nil] at this hlenN'
+        omega
+      have hc := bpath_logb nav tbl D N H t0 bp (hD0 t0 (by simp)) (fun x hx => hD0 x (by simp [hx])) hbpl
       simp only at hc
       have hwalk : walkK nav (pre ++ [t] ++ [t']) = walkSt nav t0 bp := by rw [hkey]; rfl
       rw [← hkey] at hc
@@ -221,6 +254,7 @@ theorem loop_spec (w : Int) (hw : D w) :
       have hgoal : pre ++ t :: t' :: rest = (pre ++ [t]) ++ (t' :: rest) := by simp
       rw [hgoal]
       apply ih (pre ++ [t]) _ hpre' (fun x hx => hl x (by simp [hx]))
+      · simp only [List.length_append, List.length_cons, List.length_nil] at hlenN' ⊢; omega
       · rfl
       · intro t'' rest' e
         cases e
@@ -254,8 +288,9 @@ end loop2
 
 /-- **The two-path descent computes Katz back-off** on every navigation structure that
 represents the table. `win` is the window oldest token first (any length, i.e. any order). -/
-theorem descend_eq_bo {ν : Type} (nav : Nav ν) (tbl : Table) (D : Int → Prop)
-    (H : Represents nav tbl D) (win : List Int) (w : Int) (hw : D w) (hwin : ∀ t ∈ win, D t) :
+theorem descend_eq_boN {ν : Type} (nav : Nav ν) (tbl : Table) (D : Int → Prop) (N : Nat)
+    (H : RepresentsN nav tbl D N) (win : List Int) (hlen : win.length + 1 ≤ N) (w : Int) (hw : D w)
+    (hwin : ∀ t ∈ win, D t) :
     descend nav win.reverse w = LogP.ofOption (bo tbl w win) := by
   cases hr : win.reverse with
   | nil =>
@@ -263,7 +298,7 @@ theorem descend_eq_bo {ν : Type} (nav : Nav ν) (tbl : Table) (D : Int → Prop
     subst this
     simp only [descend]
     have hreach : reach nav [w].reverse = some (nav.root w) := by simp [reach, walkSt]
-    rw [H.logp_some [w] _ (by simpa using hw) hreach]
+    rw [H.logp_some [w] _ (by simpa using hw) (by simp; omega) hreach]
     simp [bo]
   | cons t0 rest =>
     simp only [descend]
@@ -272,11 +307,13 @@ theorem descend_eq_bo {ν : Type} (nav : Nav ν) (tbl : Table) (D : Int → Prop
     have hrw : reach nav [w].reverse = some (nav.root w) := by simp [reach, walkSt]
     have hrt : reach nav [t0].reverse = some (nav.root t0) := by simp [reach, walkSt]
     have hD0 : D t0 := hwin' t0 (by simp)
-    have hlw := H.logp_some [w] _ (by simpa using hw) hrw
-    have hlt := H.logb_some [t0] _ (by simpa using hD0) hrt
-    have := loop_spec nav tbl D H w hw (t0 :: rest) []
+    have hwl : win.length = rest.length + 1 := by
+      have := congrArg List.length hr; simpa using this
+    have hlw := H.logp_some [w] _ (by simpa using hw) (by simp; omega) hrw
+    have hlt := H.logb_some [t0] _ (by simpa using hD0) (by simp; omega) hrt
+    have := loop_spec nav tbl D N H w hw (t0 :: rest) []
       ⟨nav.root w, true, nav.root t0, true, nav.logp (nav.root w), nav.logb (nav.root t0)⟩
-      (by simp) hwin' (by simp [walkK, walkSt])
+      (by simp) hwin' (by simp; omega) (by simp [walkK, walkSt])
       (by
         intro t r e
         cases e
@@ -287,6 +324,13 @@ theorem descend_eq_bo {ν : Type} (nav : Nav ν) (tbl : Table) (D : Int → Prop
     congr 2
     rw [← hr]; simp
 
+
+/-- The unrestricted version (navigation structures that carry a back-off weight at every
+depth, e.g. the abstract reverse trie). -/
+theorem descend_eq_bo {ν : Type} (nav : Nav ν) (tbl : Table) (D : Int → Prop)
+    (H : Represents nav tbl D) (win : List Int) (w : Int) (hw : D w) (hwin : ∀ t ∈ win, D t) :
+    descend nav win.reverse w = LogP.ofOption (bo tbl w win) :=
+  descend_eq_boN nav tbl D (win.length + 1) (H.toN _) win (Nat.le_refl _) w hw hwin
 
 /-! ## the abstract reverse trie of an arbitrary finite table -/
 
